@@ -97,10 +97,12 @@ Qed.
 
 (* states that agree on the fields the invariant reads *)
 Lemma inv_ext : forall s s', Inv s -> pc s' = pc s -> (forall i, ctxc s i = true -> ctxc s' i = true) ->
-  cns s' = cns s -> seen s' = seen s -> next_w s' = next_w s -> Inv s'.
+  cns s' = cns s -> seen s' = seen s -> next_w s <= next_w s' -> Inv s'.
 Proof.
   intros s s' HI Ep Ec En Es Ew. dinv HI.
-  constructor; rewrite ?Ep, ?En, ?Es, ?Ew; eauto.
+  constructor; rewrite ?Ep, ?En, ?Es; eauto.
+  - intros. eapply Nat.lt_le_trans; [eapply Hi3|]; eauto.
+  - intros. eapply Nat.lt_le_trans; [eapply Hi5|]; eauto.
 Qed.
 
 (* a subscriber moves between two program points that hold no wire id *)
@@ -143,7 +145,7 @@ Proof.
 Qed.
 
 Lemma inv_pc_free_gen : forall s s' i p, Inv s -> pc s' = upd (pc s) i p ->
-  (forall j, ctxc s j = true -> ctxc s' j = true) -> cns s' = cns s -> seen s' = seen s -> next_w s' = next_w s ->
+  (forall j, ctxc s j = true -> ctxc s' j = true) -> cns s' = cns s -> seen s' = seen s -> next_w s <= next_w s' ->
   heldw (pc s i) = None -> heldw p = None -> (cancelP p -> ctxc s i = true) -> Inv s'.
 Proof.
   intros. eapply (inv_ext (set_pc s i p)); eauto. apply inv_set_pc_free; auto.
@@ -166,30 +168,41 @@ Proof.
   - (* ADialCtx *) inv_step H; free_pc.
   - (* APublish *) inv_step H; free_pc.
   - (* ABook *) inv_step H; free_pc.
-  - admit.
-  - admit.
-  - admit.
-  - admit.
-  - admit.
-  - admit.
-  - admit.
-  - admit.
-  - admit.
-  - admit.
-  - admit.
-  - admit.
-  - admit.
-  - admit.
-  - admit.
-  - admit.
-  - admit.
-  - admit.
-  - admit.
-  - admit.
-  - admit.
-  - admit.
-  - admit.
-  - admit.
-  - admit.
-  - admit.
+  - (* AInsert *) admit.
+  - (* ASend *) admit.
+  - (* ASendCtx *) admit.
+  - (* AUnsub *) admit.
+  - (* AUnsubSend *) admit.
+  - (* ARemove *) admit.
+  - (* AClose *) inv_step H. pose proof (inv_shut _ _ _ _ _ HI Heqp) as HI1.
+    destruct (shut_frame _ _ _ _ _ Heqp) as (Ep & Ec & Es & Ew & _).
+    match goal with Hpc : pc s ?i = SClose _ _ |- _ =>
+      eapply (inv_pc_free_gen s0); eauto; simp; try lia; rewrite ?Ep, ?Ec; try rewrite Hpc; simpl; auto;
+      try (destruct k; simpl; reflexivity);
+      try (destruct k; simpl; try tauto; intros _; eapply (I7 _ HI); rewrite Hpc; simpl; auto) end.
+  - (* ARLRemove *) admit.
+  - (* ARLClose *) admit.
+  - (* ARLReadErr *) admit.
+  - (* ATimerFire *) admit.
+  - (* ATimerClose *) admit.
+  - (* ARemoveConn *) admit.
+  - (* UpAccept *) inv_step H. eapply inv_ext; eauto.
+  - (* UpReject *) inv_step H.
+    match goal with Hd : dials s ?d = Some ?x, Hph : d_phase ?x = _ |- _ =>
+      pose proof (HO _ _ Hd) as Hp; rewrite Hph in Hp; specialize (Hp ltac:(discriminate)) end.
+    eapply (inv_pc_free_gen s); eauto; simp; try lia; try rewrite Hp; simpl; auto; try discriminate; tauto.
+  - (* UpAck *) admit.
+  - (* UpInitFail *) inv_step H.
+    match goal with Hd : dials s ?d = Some ?x, Hph : d_phase ?x = _ |- _ =>
+      pose proof (HO _ _ Hd) as Hp; rewrite Hph in Hp; specialize (Hp ltac:(discriminate)) end.
+    eapply (inv_pc_free_gen s); eauto; simp; try lia; try rewrite Hp; simpl; auto; try discriminate; tauto.
+  - (* UpMsg *) admit.
+  - (* UpDrop *) admit.
+  - (* APingTimeout *) inv_step H. eapply inv_shut; eauto.
+  - inv_step H; eapply inv_ext; eauto.
+  - inv_step H; eapply inv_ext; eauto.
+  - inv_step H; eapply inv_ext; eauto.
+  - inv_step H; eapply inv_ext; eauto.
+  - inv_step H; eapply inv_ext; eauto.
+  - inv_step H; eapply inv_ext; eauto.
 Admitted.
